@@ -8,16 +8,17 @@ Open Scope Z_scope.
 Section Clean.
 Variable p : program.
 Variable rk : node -> nat.
+Variable s0 : state.
 Hypothesis Hrk : forall n e d, alookup p n = Some e -> In d (expr_reads e) -> (rk d < rk n)%nat.
 
 Lemma MInv_clean : forall X inp s n i cl nt,
-  MInv p rk X inp s -> get_info s n = Some i -> ~ sverified s n ->
+  MInv p rk s0 X inp s -> get_info s n = Some i -> ~ sverified s n ->
   (forall d, In d cl -> In d (old_fwd s n) /\ (nkind d = KInput \/ sverified s d)) ->
   (forall d, In d (old_fwd s n) ->
      edgeokV s i d /\ (nkind d = KFirewall -> sverified s d) /\ (thru d -> MSolid s d)) ->
   (nt = None -> forall d, In d (old_fwd s n) -> edgeok s n d) ->
   (forall t, nt = Some t -> t = new_tfc_of s i /\ Stale s n /\ ~ In n X) ->
-  MInv p rk X inp (clean_query s n cl nt) /\ MKeeps s (clean_query s n cl nt).
+  MInv p rk s0 X inp (clean_query s n cl nt) /\ MKeeps s (clean_query s n cl nt).
 Proof.
   intros X inp s n i cl nt HI Hi Hnv Hcl Hall Hsync Hnt.
   set (s' := clean_query s n cl nt).
@@ -35,7 +36,7 @@ Proof.
     rewrite Hi. reflexivity. }
   assert (Hcal : forall y, callers_of s' y = callers_of s y) by (intro y; apply clean_query_callers).
   assert (Hfrk : forall d, In d (old_fwd s n) -> d <> n).
-  { intros d Hdn ->. pose proof (mfwd_rk _ _ Hrk _ _ _ _ _ _ HI Hdn). lia. }
+  { intros d Hdn ->. pose proof (mfwd_rk _ _ Hrk _ _ _ _ _ _ _ HI Hdn). lia. }
   assert (Hpath : forall a b, tpath s' a b <-> tpath s a b).
   { intros a b. split; intro K.
     - eapply tpath_frame_inv; [exact K|]. intros; apply Hfwd.
@@ -102,12 +103,12 @@ Proof.
     assert (v0 = v) by congruence. subst v0. subst v.
     destruct (fw_or_thru d) as [Kd|Kd].
     - destruct (Kf Kd) as [j' [J1 J2]]. assert (j' = j) by congruence. subst j'. eapply mi_V; eauto.
-    - eapply (MSolid_value _ _ Hrk _ _ _ _ HI (S (rk d))); eauto. }
+    - eapply (MSolid_value _ _ Hrk _ _ _ _ _ HI (S (rk d))); eauto. }
   split.
   { split.
   - (* mi_kind *)
     intros m j Hj. rewrite Hget in Hj. destruct (node_eqb_spec n m) as [<-|Hne]; [|eapply mi_kind; eauto].
-    inversion Hj. subst j. destruct (mi_kind _ _ _ _ _ _ HI n i Hi) as [(K1 & K2 & K3 & K4 & K5)|(K1 & e & l & Ke & Kev & Kr)].
+    inversion Hj. subst j. destruct (mi_kind _ _ _ _ _ _ _ HI n i Hi) as [(K1 & K2 & K3 & K4 & K5)|(K1 & e & l & Ke & Kev & Kr)].
     + left. unfold ni, cq_info. cbn [i_fwd i_obs i_tfc i_value]. rewrite K3, K4.
       repeat split; auto; destruct nt as [t|]; try reflexivity.
       destruct (Hnt t eq_refl) as [-> [[cal [Hc _]] _]]. unfold old_fwd in Hc. rewrite Hi, K2 in Hc. destruct Hc.
@@ -118,7 +119,7 @@ Proof.
   - (* mi_obs *)
     intros m j d Hj Hdm. rewrite Hget in Hj. destruct (node_eqb_spec n m) as [<-|Hne]; [|eapply mi_obs; eauto].
     inversion Hj. subst j. unfold ni, cq_info in Hdm. cbn [i_fwd] in Hdm.
-    destruct (mi_obs _ _ _ _ _ _ HI n i d Hi Hdm) as [[v t] Ho]. rewrite Hobs, Ho. destruct nt; eexists; reflexivity.
+    destruct (mi_obs _ _ _ _ _ _ _ HI n i d Hi Hdm) as [[v t] Ho]. rewrite Hobs, Ho. destruct nt; eexists; reflexivity.
   - (* mi_obs_fwd *)
     intros m j d o Hj Ho. rewrite Hget in Hj. destruct (node_eqb_spec n m) as [<-|Hne]; [|eapply mi_obs_fwd; eauto].
     inversion Hj. subst j. rewrite Hobs in Ho. unfold ni, cq_info. cbn [i_fwd].
@@ -128,7 +129,7 @@ Proof.
     intros m d Hdm. rewrite Hfwd in Hdm. rewrite Hget. destruct (node_eqb n d); [discriminate|].
     eapply mi_target; eauto.
   - (* mi_bwd *)
-    intros m d. rewrite Hcal, Hfwd. apply (mi_bwd _ _ _ _ _ _ HI).
+    intros m d. rewrite Hcal, Hfwd. apply (mi_bwd _ _ _ _ _ _ _ HI).
   - (* mi_dirty_edge *)
     intros a b K. rewrite Hfwd. apply Hd in K. eapply mi_dirty_edge; [exact HI|]. tauto.
   - (* mi_ts *)
@@ -141,7 +142,7 @@ Proof.
       destruct (Hnt t1 eq_refl) as [-> _].
       assert (Hdf : In d (all_callees (i_fwd i))) by (eapply mi_obs_fwd; eauto).
       assert (Hdn : In d (old_fwd s n)) by (unfold old_fwd; rewrite Hi; exact Hdf).
-      destruct (get_info s d) as [jd|] eqn:Hjd; [|exfalso; eapply (mi_target _ _ _ _ _ _ HI); eauto].
+      destruct (get_info s d) as [jd|] eqn:Hjd; [|exfalso; eapply (mi_target _ _ _ _ _ _ _ HI); eauto].
       assert (Et : t = (if kind_eqb (nkind d) KFirewall then t0 else i_tfc jd)) by congruence.
       unfold ni, cq_info. cbn [i_tfc]. split.
       * intro Kd. apply new_tfc_In. exists d, jd. split; [exact Hdf|]. split; [exact Hjd|].
@@ -156,7 +157,7 @@ Proof.
     intros m j F Hj HF. rewrite Hget in Hj. destruct (node_eqb_spec n m) as [<-|Hne]; [|eapply mi_tfc_ex; eauto].
     inversion Hj. subst j. unfold ni, cq_info in HF. cbn [i_tfc] in HF. destruct nt as [t1|] eqn:Ent.
     + destruct (Hnt t1 eq_refl) as [-> _]. apply new_tfc_In in HF. destruct HF as [x [xi (A & B & C)]].
-      destruct (mi_obs _ _ _ _ _ _ HI n i x Hi A) as [[v0 t0] Ho].
+      destruct (mi_obs _ _ _ _ _ _ _ HI n i x Hi A) as [[v0 t0] Ho].
       exists x, v0. eexists. split; [rewrite Hobs, Ho; reflexivity|].
       unfold tfc_contribution in C. unfold tkind. rewrite B.
       destruct (nkind x) eqn:Kx; cbn [kind_eqb]; try destruct C as [<-|[]]; try destruct C; auto.
@@ -166,60 +167,73 @@ Proof.
     inversion Hj. subst j. unfold ni, cq_info in HF. cbn [i_tfc] in HF. destruct nt as [t1|] eqn:Ent.
     + destruct (Hnt t1 eq_refl) as [-> _]. apply new_tfc_In in HF. destruct HF as [x [xi (A & B & C)]].
       assert (Hxn : In x (old_fwd s n)) by (unfold old_fwd; rewrite Hi; exact A).
-      pose proof (mfwd_rk _ _ Hrk _ _ _ _ _ _ HI Hxn) as R1.
+      pose proof (mfwd_rk _ _ Hrk _ _ _ _ _ _ _ HI Hxn) as R1.
       unfold tfc_contribution in C. destruct (nkind x) eqn:Kx; try destruct C as [<-|[]]; try destruct C; try exact R1.
-      * pose proof (mi_tfc_rk _ _ _ _ _ _ HI x xi F B C). lia.
-      * pose proof (mi_tfc_rk _ _ _ _ _ _ HI x xi F B C). lia.
+      * pose proof (mi_tfc_rk _ _ _ _ _ _ _ HI x xi F B C). lia.
+      * pose proof (mi_tfc_rk _ _ _ _ _ _ _ HI x xi F B C). lia.
     + eapply mi_tfc_rk; eauto.
   - (* mi_tfc_fw *)
     intros m j F Hj HF. rewrite Hget in Hj. destruct (node_eqb_spec n m) as [<-|Hne]; [|eapply mi_tfc_fw; eauto].
     inversion Hj. subst j. unfold ni, cq_info in HF. cbn [i_tfc] in HF. destruct nt as [t1|] eqn:Ent.
     + destruct (Hnt t1 eq_refl) as [-> _]. apply new_tfc_In in HF. destruct HF as [x [xi (A & B & C)]].
       unfold tfc_contribution in C. destruct (nkind x) eqn:Kx; try destruct C as [<-|[]]; try destruct C; try exact Kx.
-      * eapply (mi_tfc_fw _ _ _ _ _ _ HI x xi F B C).
-      * eapply (mi_tfc_fw _ _ _ _ _ _ HI x xi F B C).
+      * eapply (mi_tfc_fw _ _ _ _ _ _ _ HI x xi F B C).
+      * eapply (mi_tfc_fw _ _ _ _ _ _ _ HI x xi F B C).
     + eapply mi_tfc_fw; eauto.
   - (* mi_C *)
     intros a b Hab Hclean. rewrite Hfwd in Hab. destruct (node_eq_dec a n) as [->|Hne].
     + split; [apply Hedge_n; exact Hab|]. intro Hnf. apply MGood_GoodX. apply HGk. apply (proj2 (proj2 (Hall b Hab)) Hnf).
     + assert (Hcl0 : ~ sdirty s a b).
       { intro K. apply Hclean. apply Hd. split; [exact K|]. intros [E _]. contradiction. }
-      destruct (mi_C _ _ _ _ _ _ HI a b Hab Hcl0) as [Eab Gb]. split; [|intro K; apply HGXk; auto].
+      destruct (mi_C _ _ _ _ _ _ _ HI a b Hab Hcl0) as [Eab Gb]. split; [|intro K; apply HGXk; auto].
       apply Hedge_o; [exact Hne|exact Eab|]. intros -> Kn. destruct nt as [t1|] eqn:Ent; [|reflexivity].
       exfalso. destruct HnStale as [HS HX]; [congruence|]. apply Hcl0. eapply Stale_callers_dirty; eauto.
   - (* mi_G *)
     intros x Hx. destruct (node_eq_dec x n) as [->|Hne].
     + apply MGood_intro. intros d Hdn. rewrite Hfwd in Hdn. split; [apply Hedge_n; exact Hdn|].
       intro Hnf. apply HGk. apply (proj2 (proj2 (Hall d Hdn)) Hnf).
-    + apply HGk. apply (mi_G _ _ _ _ _ _ HI). apply Hver; assumption.
+    + apply HGk. apply (mi_G _ _ _ _ _ _ _ HI). apply Hver; assumption.
   - (* mi_T *)
     intros x F Hx HR. apply Hreach in HR. apply Hver1. destruct (node_eq_dec x n) as [->|Hne].
     + destruct HR as [y (A & B & C)]. inversion A; subst.
       * apply (proj1 (proj2 (Hall F B))). exact C.
       * apply (proj2 (proj2 (Hall d H)) H0). exists y. auto.
-    + eapply (mi_T _ _ _ _ _ _ HI); [|exact HR]. apply Hver; assumption.
+    + eapply (mi_T _ _ _ _ _ _ _ HI); [|exact HR]. apply Hver; assumption.
   - (* mi_V *)
     intros m j Hj Hv. rewrite Hget in Hj. destruct (node_eqb_spec n m) as [<-|Hne].
     + inversion Hj. subst j. unfold ni, cq_info. cbn [i_value].
-      destruct (mi_kind _ _ _ _ _ _ HI n i Hi) as [(K1 & _ & _ & _ & K5)|(K1 & e & l & Ke & Kev & Kr)].
+      destruct (mi_kind _ _ _ _ _ _ _ HI n i Hi) as [(K1 & _ & _ & _ & K5)|(K1 & e & l & Ke & Kev & Kr)].
       * apply MSpecI_input; assumption.
       * eapply MSpecI_exec; eauto. eapply ev_msev; [eapply evr_ev; exact Kev|]. intros d x _ Hx. apply HfS; [|exact Hx].
         destruct Hx as [t Hx]. unfold old_fwd. rewrite Hi. eapply mi_obs_fwd; eauto.
     + eapply mi_V; eauto. congruence.
   - (* mi_PV *)
     intros x Hx. unfold s' in Hx. rewrite clean_query_visited in Hx. right.
-    destruct (mi_PV _ _ _ _ _ _ HI x Hx) as [[]|[K|[Kin K]]]; [left; apply Hver1; exact K|].
+    destruct (mi_PV _ _ _ _ _ _ _ HI x Hx) as [[]|[K|[Kin K]]]; [left; apply Hver1; exact K|].
     destruct (in_dec node_eq_dec x cl) as [Hc|Hc].
     + left. apply Hver1. destruct (proj2 (Hcl x Hc)) as [Ki|Kv]; [contradiction|exact Kv].
     + right. split; [exact Kin|]. intros c Hcx. rewrite Hcal in Hcx. destruct (K c Hcx) as [K1 K2]. split.
       * apply Hd. split; [exact K1|]. intros [_ K3]. contradiction.
       * intro Hn. unfold s'. rewrite clean_query_visited. auto.
   - (* mi_X *)
-    intros x Hx. destruct (mi_X _ _ _ _ _ _ HI x Hx) as [K1 K2]. split; [exact K1|].
+    intros x Hx. destruct (mi_X _ _ _ _ _ _ _ HI x Hx) as [K1 K2]. split; [exact K1|].
     destruct (node_eq_dec x n) as [->|Hne]; [left; exact Hvern|].
     destruct K2 as [K2|(cal & i0 & ci & v0 & t & A & B & C & D & E)]; [left; apply Hver1; exact K2|right].
     assert (Hcn : cal <> n) by (intros ->; apply Hnv; exists ci; auto).
-    exists cal, i0, ci, v0, t. rewrite (Hgetne x Hne), (Hgetne cal Hcn), Hts. auto. }
+    exists cal, i0, ci, v0, t. rewrite (Hgetne x Hne), (Hgetne cal Hcn), Hts. auto.
+  - (* mi_J *)
+    intros m Hm. unfold s' in Hm. rewrite clean_query_log in Hm. eapply mi_J; eauto.
+  - (* mi_U *)
+    intro m. destruct (node_eq_dec m n) as [->|Hne]; [left; exact Hvern|].
+    rewrite (Hgetne m Hne). destruct (mi_U _ _ _ _ _ _ _ HI m) as [K|K]; [left; apply Hver1; exact K|right; exact K].
+  - (* mi_O *)
+    intros m j Hj. unfold s'. rewrite clean_query_log. rewrite Hget in Hj. destruct (node_eqb_spec n m) as [<-|Hne].
+    + inversion Hj. subst j. destruct (mi_O _ _ _ _ _ _ _ HI n i Hi) as [K|[i0 [K1 K2]]]; [left; exact K|right].
+      exists i0. split; [exact K1|]. intros d x. rewrite <- K2. unfold obsV. rewrite Hobs.
+      destruct nt; [|reflexivity]. destruct (alookup (i_obs i) d) as [[v t]|].
+      * split; intros [t1 E]; inversion E; eauto.
+      * split; intros [t1 E]; discriminate.
+    + eapply mi_O; eauto. }
   (* MKeeps *)
   intros d j Hj [HG _]. destruct (node_eq_dec d n) as [->|Hne].
   - assert (j = i) by congruence. subst j. exists ni. split; [exact Hgetn|].
@@ -231,10 +245,10 @@ Qed.
 
 (** * the pending mark is not looked at *)
 Lemma MInv_pending : forall Ex X inp s n i i',
-  MInvE p rk Ex X inp s -> get_info s n = Some i -> sbp i i' ->
-  MInvE p rk Ex X inp (put_info s n i') /\ MKeeps s (put_info s n i').
+  MInvE p rk s0 Ex X inp s -> get_info s n = Some i -> sverified s n -> sbp i i' ->
+  MInvE p rk s0 Ex X inp (put_info s n i') /\ MKeeps s (put_info s n i').
 Proof.
-  intros Ex X inp s n i i' HI Hi Hs.
+  intros Ex X inp s n i i' HI Hi Hvn Hs.
   set (s' := put_info s n i').
   assert (Hget : forall m, get_info s' m = if node_eqb n m then Some i' else get_info s m) by (intro m; apply get_put).
   assert (Hfw : forall m j, get_info s m = Some j -> exists j', get_info s' m = Some j' /\ sbp j j').
@@ -306,7 +320,13 @@ Proof.
     destruct K2 as [K2|(cal & i0 & ci & v0 & t & A & B & C & D & E)]; [left; apply Hv; exact K2|right].
     destruct (Hfw x i0 A) as [i0' [A' (_ & _ & _ & _ & O)]]. destruct (Hfw cal ci C) as [ci' [C' (V & W & _)]].
     exists cal, i0', ci', v0, t. split; [exact A'|]. split; [rewrite O; exact B|]. split; [exact C'|].
-    split; [rewrite V; exact D|]. rewrite W. exact E. }
+    split; [rewrite V; exact D|]. rewrite W. exact E.
+  - intros m Hm. apply mi_J. exact Hm.
+  - intro m. rewrite Hget. destruct (node_eqb_spec n m) as [<-|Hne]; [|destruct (mi_U m) as [K|K]; [left; apply Hv; exact K|right; exact K]].
+    left. apply Hv. exact Hvn.
+  - intros m j' Hj. destruct (Hbw m j' Hj) as [j [A (_ & _ & _ & _ & O)]].
+    destruct (mi_O m j A) as [K|[i0 [K1 K2]]]; [left; exact K|right]. exists i0. split; [exact K1|].
+    intros d x. rewrite <- K2. unfold obsV. rewrite O. reflexivity. }
   intros d j Hj _. destruct (Hfw d j Hj) as [j' [A B]]. exists j'. split; [exact A|]. apply sbp_same_sem. exact B.
 Qed.
 End Clean.
